@@ -309,6 +309,13 @@ class DiHypergraph:
         """An :class:`DiEdgeView` of this network."""
         return self._edgeview
 
+    def _new_edge_uid(self):
+        """Next automatic edge ID, skipping IDs that are already in use."""
+        uid = next(self._edge_uid)
+        while uid in self._edge:
+            uid = next(self._edge_uid)
+        return uid
+
     def add_node(self, node, **attr):
         """Add one node with optional attributes.
 
@@ -541,7 +548,7 @@ class DiHypergraph:
         else:
             raise XGIError("Directed edge must be a list or tuple!")
 
-        uid = next(self._edge_uid) if idx is None else idx
+        uid = self._new_edge_uid() if idx is None else idx
 
         if idx in self._edge.keys():  # check that uid is not present yet
             warn(f"uid {idx} already exists, cannot add edge {members}")
@@ -733,11 +740,11 @@ class DiHypergraph:
         e = first_edge
         while True:
             if format1:
-                members, idx, eattr = e, next(self._edge_uid), {}
+                members, idx, eattr = e, self._new_edge_uid(), {}
             elif format2:
                 members, idx, eattr = e[0], e[1], {}
             elif format3:
-                members, idx, eattr = e[0], next(self._edge_uid), e[1]
+                members, idx, eattr = e[0], self._new_edge_uid(), e[1]
             elif format4:
                 members, idx, eattr = e[0], e[1], e[2]
 
